@@ -131,13 +131,12 @@ func scanConcurrentCmd(args []string) int {
 			}
 		}
 		foreign()
-		if *seeks && last < *n && rng.Intn(4) == 0 {
-			if recent > last && rng.Intn(2) == 0 {
-				// right onto the key that was just written (its new versions are invisible to this scan)
-				seekTo(recent)
-			} else {
-				seekTo(last + 1 + rng.Intn(*n-last))
-			}
+		if *seeks && last < *n && recent > last && rng.Intn(2) == 0 {
+			// right onto the key that was just written (its new versions are invisible to this scan)
+			seekTo(recent)
+		} else if *seeks && last < *n && rng.Intn(5) == 0 {
+			// a short jump ahead (long ones would end the scan early)
+			seekTo(last + 1 + rng.Intn(min(3, *n-last)))
 		} else {
 			it.Next()
 		}
